@@ -489,7 +489,7 @@ func scenC18(r *Run) {
 		kind := kinds[sub%3]
 		n := 2 + (sub/3)%3
 		wt := 2 + (sub/9)%3
-		scenario := []string{"reduce", "restore"}[(sub/27)%2]
+		scenario := []string{"reduce", "restore", "reduce-burst"}[(sub/27)%3]
 		w := make([]int, n)
 		for i := range w {
 			w[i] = wt
@@ -530,6 +530,40 @@ func scenC18(r *Run) {
 				return c.url
 			}
 			share := 1.0 / float64(n)
+			if scenario == "reduce-burst" {
+				// first a burst: many calls in flight at once, those that landed on the bad server fail together
+				// (more failures than the server has weight); then the sequential reduce scenario
+				var gates []chan struct{}
+				finB, nB := 0, 6*n+r.Plan(6)
+				for b := 0; b < nB; b++ {
+					sim.Task(fmt.Sprintf("burst%02d", b), func() {
+						defer func() { finB++ }()
+						pick(func(u string) byte {
+							if u != bad {
+								return 'S'
+							}
+							g := make(chan struct{})
+							gates = append(gates, g)
+							<-g
+							verifsim.ForceYield(-80)
+							return 'E'
+						})
+					})
+				}
+				for finB+len(gates) < nB {
+					time.Sleep(time.Millisecond)
+					verifsim.ForceYield(-81)
+				}
+				r.Param("burst_failures", len(gates))
+				for _, g := range gates {
+					close(g)
+				}
+				for finB < nB {
+					time.Sleep(time.Millisecond)
+					verifsim.ForceYield(-82)
+				}
+				scenario = "reduce"
+			}
 			if scenario == "reduce" {
 				F := 40 * sum
 				failKind := byte("EP"[r.Plan(2)])
